@@ -255,7 +255,7 @@ STRESS = 0.12
 ODD_NAMES = ["a.b", "x-y", "n_1", "_u", "é", "Tag9", "名"]
 ODD_ATTR_NAMES = ["data-x", "a.b", "_k", "n1"]
 ODD_VALUES = ["   ", " lead", "trail ", "x" * 120, "𝔘😀", "a  b"]
-MANY_NSS = ["urn:n1", "urn:n2", "urn:n3", "urn:n4", "urn:n5"]
+MANY_NSS = ["urn:n1", "urn:n2", "urn:n3", "http://www.w3.org/1999/xhtml", "http://www.w3.org/2000/svg"]
 
 
 def gen_tree(rng, max_depth=4, max_kids=5, nss=NSS, p_text=0.45, p_comment=0.08, p_pi=0.05,
